@@ -1,0 +1,53 @@
+//go:build verif
+
+package rsa
+
+import (
+	"crypto"
+	"hash"
+	"sort"
+)
+
+// Verification hooks (build tag verif only): thin wrappers around unexported code.
+
+func ZVEncrypt(pub *PublicKey, plaintext []byte) ([]byte, error) { return encrypt(pub, plaintext) }
+
+func ZVDecrypt(priv *PrivateKey, ciphertext []byte, check bool) ([]byte, error) {
+	return decrypt(priv, ciphertext, check)
+}
+
+func ZVCheckPub(pub *PublicKey) error { return checkPub(pub) }
+
+func ZVConstructEM(pub *PublicKey, h crypto.Hash, hashed []byte) ([]byte, error) {
+	return pkcs1v15ConstructEM(pub, h, hashed)
+}
+
+func ZVEmsaPSSEncode(mHash []byte, emBits int, salt []byte, h hash.Hash) ([]byte, error) {
+	return emsaPSSEncode(mHash, emBits, salt, h)
+}
+
+func ZVEmsaPSSVerify(mHash, em []byte, emBits, sLen int, h hash.Hash) error {
+	return emsaPSSVerify(mHash, em, emBits, sLen, h)
+}
+
+func ZVSignPSSWithSalt(priv *PrivateKey, h crypto.Hash, hashed, salt []byte) ([]byte, error) {
+	return signPSSWithSalt(priv, h, hashed, salt)
+}
+
+func ZVMgf1XOR(out []byte, h hash.Hash, seed []byte) { mgf1XOR(out, h, seed) }
+
+func ZVNonZeroRandomBytes(s []byte, r interface{ Read([]byte) (int, error) }) error {
+	return nonZeroRandomBytes(s, r)
+}
+
+// ZVHashPrefixes dumps the DigestInfo prefix table sorted by hash id.
+func ZVHashPrefixes() (ids []crypto.Hash, prefixes [][]byte) {
+	for h := range hashPrefixes {
+		ids = append(ids, h)
+	}
+	sort.Slice(ids, func(i, j int) bool { return ids[i] < ids[j] })
+	for _, h := range ids {
+		prefixes = append(prefixes, hashPrefixes[h])
+	}
+	return
+}
